@@ -8,7 +8,7 @@ import (
 const pebPkg = repoMod + "/pkg/storage/pebbledb"
 
 var pebbleAssumptions = []string{
-	"Pebble is replaced by its contract model (engine/pebble.go): key/value table, atomic batches, snapshot isolation, ascending bytewise bounded iteration, synced commits durable; that real Pebble implements the contract is trusted (native replays run the same operations on a real in-memory Pebble)",
+	"Pebble is replaced by its contract model (engine/pebble.go): key/value table, atomic batches, snapshot isolation, ascending bytewise bounded iteration, synced commits durable, SingleDelete shadowing the key in the live view while an older overwritten value resurfaces after a restart; that real Pebble implements the contract is trusted (native replays run the same operations on a real in-memory Pebble)",
 	"gob is an opaque encoding that round-trips its payload and never starts with '{'; topology/fuzzy hashes are injective names of the pool shapes; crypto/rand yields distinct fresh bytes; time is a constant",
 }
 
@@ -19,13 +19,16 @@ func init() {
 			pre = 2
 		}
 		var cfgs []*HarnessCfg
-		for lk := int64(0); lk < 5; lk++ {
+		for lk := int64(0); lk < 6; lk++ {
 			if lk == 3 {
+				// candidate scan (ScanCandidates vs brute force incl. the packed entropy pre-filter) with two
+				// fixed IDs: about 8 minutes per pool shape, thorough tier only (the quick tier checks what
+				// the candidate and alert scans read in the index-entry family 5 instead)
 				if c.Tier != "thorough" && os.Getenv("VERIF_ONLY") == "" {
-					continue // the candidate scan multiplies case splits; thorough tier only
+					continue
 				}
 				for sh := int64(0); sh < 2; sh++ {
-					cfgs = append(cfgs, &HarnessCfg{Name: "VerifC06_Step", Pkg: pebPkg, Solver: "z3", Params: map[string]int64{"pre": 1, "lookup": lk, "shape": sh}, MaxPaths: 2000000})
+					cfgs = append(cfgs, &HarnessCfg{Name: "VerifC06_Step", Pkg: pebPkg, Solver: "z3", Params: map[string]int64{"pre": 1, "lookup": lk, "shape": sh, "fixedids": 1}, MaxPaths: 2000000})
 				}
 				continue
 			}
@@ -47,7 +50,7 @@ func init() {
 		c.Assumptions = append(c.Assumptions, pebbleAssumptions...)
 		c.Assumptions = append(c.Assumptions,
 			"states: every store reachable by adding up to 2 signatures (IDs: arbitrary printable strings of 1-2 bytes, so separators and prefix relations between IDs are covered; hashes from a pool of 2+2 shapes; entropy from a pool of six values incl. neighbours of 5.0; tolerance 0 or 0.5), followed by one arbitrary mutation from {add/update, batch add with repeated IDs, delete, false-positive mark, rebuild, none}",
-			"lookups compared with brute force after the step: by ID, by topology hash, count, listing, entropy range [0.5,5], candidate scan for both pool shapes, index statistics",
+			"lookups compared with brute force after the step: by ID, by topology hash, count, listing, entropy range [0.5,5], index statistics, the entries of the exact-hash and fuzzy indexes as the scans decode them (key, ID, packed entropy score and tolerance of the current version); thorough tier also the candidate scan itself for both pool shapes (fixed IDs)",
 			"more than 2 live signatures, hashes containing ':', and close/reopen cycles are outside this bound")
 		c.runModeT([]string{"pkg/storage/pebbledb"}, cfgs)
 	}
